@@ -130,6 +130,9 @@ def check(ctx):
             site_i = ctx.site(P.method(cls, "__init__"))
             ctx.compare("R-ASSIGN", f"descriptor weights are normalised to one [{cfg}]", N, ctx.attr(st, o, "weights"), T("sdiv", W_.term, T("sum", W_.term)), site_i, cfg)
             Gd = arr("grid", "G", "F")
+            # caches of an earlier fit (filled lazily by score_samples) must not survive a refit
+            st.heap[o.obj.id]["_bandwidth_inv_"] = arr("stale_binv", "G0", "F", "F", inp=False)
+            st.heap[o.obj.id]["_normkernels_"] = arr("stale_normk", "G0", inp=False)
             lo = len(I.events)
             r = ctx.call_method(I, st, o, "fit", Gd)
             site = ctx.site(P.method(cls, "fit"))
